@@ -108,6 +108,10 @@ fn flow<C: Ciphersuite, L: Lab<C>>(lab: &mut L, p: &Params) {
         lab.eq_e(cc.hiding().value(), g::<C>() * hn, "hiding commitment = G * hiding nonce");
         lab.eq_e(cc.binding().value(), g::<C>() * bn, "binding commitment = G * binding nonce");
         spec_nonces.push((hn, bn));
+        // H3 of the suite against the independent transcription (concrete runs only)
+        let mut pre = hb.clone();
+        pre.extend_from_slice(&ser_s::<C>(&share));
+        lab.ref_hash(3, &pre, &ser_s::<C>(&C::H3(&pre)), "H3 (nonce) of the suite = independent RFC 9591 transcription");
     }
     lab.leave();
 
@@ -132,6 +136,12 @@ fn flow<C: Ciphersuite, L: Lab<C>>(lab: &mut L, p: &Params) {
         lab.leave();
         return;
     };
+    // H1, H4, H5 of the suite against the independent transcription (concrete runs only)
+    lab.ref_hash(4, &msg, C::H4(&msg).as_ref(), "H4 (message) of the suite = independent RFC 9591 transcription");
+    lab.ref_hash(5, &enc_spec, C::H5(&enc_spec).as_ref(), "H5 (commitment list) of the suite = independent RFC 9591 transcription");
+    for (input, bf) in spec_bfs.iter() {
+        lab.ref_hash(1, input, &ser_s::<C>(bf), "H1 (binding factor) of the suite = independent RFC 9591 transcription");
+    }
     let pre = sess.package.binding_factor_preimages(&vk, &[]);
     let bfl = fc::compute_binding_factor_list(&sess.package, &vk, &[]);
     let (Ok(pre), Ok(bfl)) = (pre, bfl) else {
@@ -174,6 +184,12 @@ fn flow<C: Ciphersuite, L: Lab<C>>(lab: &mut L, p: &Params) {
         return;
     };
     lab.eq_s(c_real.to_scalar(), c_spec, "challenge = H2(enc(R) || enc(PK) || msg)");
+    if let (Some(rb), Some(pb)) = (spec::ser_e::<C>(&r_spec), spec::ser_e::<C>(&pk)) {
+        let mut pre = rb;
+        pre.extend_from_slice(&pb);
+        pre.extend_from_slice(&msg);
+        lab.ref_hash(2, &pre, &ser_s::<C>(&c_spec), "H2 (challenge) of the suite = independent RFC 9591 transcription");
+    }
     let xs: Vec<_> = sess.signers.iter().map(|i| i.to_scalar()).collect();
     let idset: BTreeSet<Identifier<C>> = sess.signers.iter().copied().collect();
     let mut lambdas = vec![];
